@@ -860,6 +860,13 @@ fn numeric_string() -> impl Strategy<Value = TV> {
 }
 
 pub fn bytes_value(prof: Profile) -> BoxedStrategy<TV> {
+    if matches!(prof, Profile::Termination) {
+        return prop_oneof![30 => bytes_value_base(prof), 1 => deep_nested_text()].boxed();
+    }
+    bytes_value_base(prof)
+}
+
+fn bytes_value_base(prof: Profile) -> BoxedStrategy<TV> {
     let long_w = match prof {
         Profile::Signature => 4,
         Profile::Edge => 8,
@@ -920,6 +927,10 @@ fn homogeneous_array(prof: Profile) -> BoxedStrategy<TV> {
     .boxed()
 }
 
+fn homogeneous_or_mixed_array(prof: Profile) -> BoxedStrategy<TV> {
+    prop_oneof![3 => proptest::collection::vec(gv::value(gv::FULL, 3), 0..=5).prop_map(TV::Array), 3 => homogeneous_array(prof)].boxed()
+}
+
 fn regex_value() -> impl Strategy<Value = TV> {
     prop_oneof![
         2 => gv::regex_src().prop_map(TV::Regex),
@@ -927,15 +938,72 @@ fn regex_value() -> impl Strategy<Value = TV> {
     ]
 }
 
+/// a small value nested 12..=72 levels deep (each level a one- or two-member array or object):
+/// a few hundred bytes at most, but any per-level repetition of work multiplies up
+pub fn deep_nested(outer_array: bool) -> BoxedStrategy<TV> {
+    (12usize..=72, any::<u64>(), any::<u64>(), prop_oneof![2 => gv::scalar(gv::FULL), 1 => Just(TV::Array(vec![])), 1 => Just(TV::Object(Default::default()))], gv::field())
+        .prop_map(move |(depth, shape, extra, leaf, key)| {
+            let mut v = leaf;
+            for level in (0..depth).rev() {
+                let as_array = if level == 0 { outer_array } else { (shape >> (level % 64)) & 1 == 0 };
+                let sibling = (extra >> (level % 64)) & 7 == 0;
+                v = if as_array {
+                    if sibling {
+                        TV::Array(vec![TV::Null, v])
+                    } else {
+                        TV::Array(vec![v])
+                    }
+                } else {
+                    let mut m = std::collections::BTreeMap::new();
+                    if sibling {
+                        m.insert("z".to_string(), TV::Str(String::new()));
+                    }
+                    m.insert(key.clone(), v);
+                    TV::Object(m)
+                };
+            }
+            v
+        })
+        .boxed()
+}
+
+/// text of a deeply nested JSON-like document (for the recursive-descent parsers)
+pub fn deep_nested_text() -> BoxedStrategy<TV> {
+    (8usize..=140, any::<u64>(), prop_oneof![Just("1"), Just("\"a\""), Just("null"), Just("")], 0usize..3)
+        .prop_map(|(depth, shape, leaf, unclosed)| {
+            let mut open = String::new();
+            let mut close = String::new();
+            for level in 0..depth {
+                if (shape >> (level % 64)) & 1 == 0 {
+                    open.push('[');
+                    close.insert(0, ']');
+                } else {
+                    open.push_str("{\"k\":");
+                    close.insert(0, '}');
+                }
+            }
+            let keep = close.len().saturating_sub(unclosed);
+            TV::Str(format!("{open}{leaf}{}", &close[..keep]))
+        })
+        .boxed()
+}
+
 /// a value of exactly the kind named by one bit
 pub fn value_of_bit(bit: u16, prof: Profile) -> BoxedStrategy<TV> {
+    if matches!(prof, Profile::Termination) {
+        match bit {
+            OBJECT => return prop_oneof![8 => value_of_bit(bit, Profile::Edge), 1 => deep_nested(false)].boxed(),
+            ARRAY => return prop_oneof![8 => homogeneous_or_mixed_array(prof), 1 => deep_nested(true)].boxed(),
+            _ => {}
+        }
+    }
     match bit {
         BYTES => bytes_value(prof),
         INTEGER => int_value(prof),
         FLOAT => gv::float().prop_map(TV::float).boxed(),
         BOOLEAN => any::<bool>().prop_map(TV::Bool).boxed(),
         OBJECT => prop_oneof![3 => gv::object(gv::FULL, 3), 2 => flat_object()].boxed(),
-        ARRAY => prop_oneof![3 => proptest::collection::vec(gv::value(gv::FULL, 3), 0..=5).prop_map(TV::Array), 3 => homogeneous_array(prof)].boxed(),
+        ARRAY => homogeneous_or_mixed_array(prof),
         TIMESTAMP => gv::timestamp().prop_map(|(s, n)| TV::Ts { s, n }).boxed(),
         REGEX => regex_value().boxed(),
         _ => Just(TV::Null).boxed(),
